@@ -12,7 +12,7 @@ from harness.creators import SHAPES, BLOCK
 import refconc
 
 PROPERTY = "C10"
-MODULES = ["torrent", "hasher", "utils", "mixins"]
+MODULES = ["torrent", "hasher", "utils", "mixins", "cli", "commands"]
 ASSUMPTIONS = [
     "A-hash model (injective sha1/sha256)",
     "agreement is judged on the metafile dictionaries as mappings (key order is C06's business), creation date removed",
@@ -48,6 +48,9 @@ def jobs(tier):
                 if q and (i + (shp == "selfdir")) % 2:
                     continue
                 out.append(("%s.%s.spelled-%s" % (tag, shp, sp), "job_pair", dict(pair=pair, shape=shp, P=16384, K=1, order="reversed", spelling=sp)))
+        from harness import matrix
+        for i, row in matrix.rows(tier):
+            out.append(("%s.matrix.%s" % (tag, matrix.label(i, row)), "job_matrix", dict(pair=pair, row=row)))
         out.append(("%s.single.P32768" % tag, "job_pair", dict(pair=pair, shape="single", P=32768, K=4, order="reversed")))
         out.append(("%s.flat2.P16384" % tag, "job_pair", dict(pair=pair, shape="flat2", P=16384, K=3, order="symbolic")))
         out.append(("%s.nested3.P16384" % tag, "job_pair", dict(pair=pair, shape="nested3", P=16384, K=2, order="reversed")))
@@ -117,6 +120,32 @@ def job_pair(E, pair, shape, P, K, order, spelling=None, emptydirs=False, _mutan
     E.check(ben_equal(a, b, ordered=False), "C10.creators.meta")
 
 
+def job_matrix(E, pair, row, _mutants=None):
+    """One row of the configuration matrix: both creators of the pair get the same request on the same tree."""
+    from harness import matrix
+    from symx.core import Unsupported
+    fs, w, sizes, Pn, shape, contents, path, arg = matrix.build(E, row, pair[0], False, _mutants)
+    E.note("row", dict(row))
+    metas = []
+    for which in pair:
+        r = dict(row)
+        if which not in ("1", "2a", "3a") and r["route"] == "cli":
+            r["route"] = "path"          # the class creators are not reachable from the command line
+        try:
+            metas.append(strip(matrix.request(World(fs, mutants=_mutants), which, r, path, arg)))
+        except Unsupported:
+            raise
+        except SystemExit as ex:
+            E.fail("C10.matrix.parser-accepts", str(ex))
+            return
+        except Exception as ex:  # noqa: BLE001
+            E.fail("C10.matrix.no-exception", "%s: %s: %s" % (which, type(ex).__name__, ex))
+            return
+    a, b = metas
+    E.check(ben_equal(a["info"], b["info"], ordered=False), "C10.matrix.info", "info dictionaries of %s and %s differ (row %r)" % (pair[0], pair[1], row))
+    E.check(ben_equal(a.get("piece layers"), b.get("piece layers"), ordered=False), "C10.matrix.piece-layers")
+
+
 def job_pair_seq(E, pair, P1, P2, _mutants=None):
     """One process creates with piece length P1 (both creators), then with P2: the
     second pair must still agree (no state may leak between runs)."""
@@ -180,6 +209,20 @@ def replay(params, model, notes, workdir, seed):
         if res["HasherHybrid"][3] != res["FileHasher.hybrid"][3]:
             bad.append("C10.hashers.padding")
         return bad
+    if "row" in params:
+        from harness import matrix
+        ms = []
+        for k, which in enumerate(params["pair"]):
+            r = dict(params["row"])
+            if which not in ("1", "2a", "3a") and r["route"] == "cli":
+                r["route"] = "path"
+            meta, data, Pn = matrix.replay(which, r, model, os.path.join(workdir, "run%d" % k), seed)
+            if isinstance(meta, BaseException):
+                return ["C10.matrix.no-exception: %s: %s" % (type(meta).__name__, meta)]
+            m = dict(meta)
+            m.pop("creation date", None)
+            ms.append(cr.norm_real(m))
+        return [] if ms[0] == ms[1] else ["C10.matrix.info"]
     if "P1" in params:
         import io
         import contextlib
